@@ -138,7 +138,7 @@ B_INIT = {'BoolOpt': ['0'], 'IntOpt': ['5'], 'StrOpt': ['hello'], 'CommaOpt': ['
 CHANGES = {
     'BoolOpt': [['1']],
     'IntOpt': [['9']],
-    'StrOpt': [['other text'], []],
+    'StrOpt': [['other text'], [], ['"quoted" text'], ['"all quoted"']],
     'CommaOpt': [['q'], ['q,r'], []],
     'LineOpt': [['m1'], ['m1', 'm2 y'], [], ['m1', 'm2 y', 'm3', 'm4']],
     'SocksPort': [['9150'], ['9150 IsolateSOCKSAuth', 'unix:/t'], [], ['9150', '9151', '9152 IsolateDestAddr']],
